@@ -51,6 +51,9 @@ def distance(bw, metric='euclidean2'):
     For other dimensions, the same (exact) one-dimensional pass is applied
     along every axis in turn.
     '''
+    bw = np.asanyarray(bw)
+    if bw.ndim == 0 or bw.size == 0:
+        raise ValueError('mahotas.distance: input must have at least one dimension and cannot be empty (got shape {})'.format(bw.shape))
     if bw.dtype != np.bool_:
         bw = (bw != 0)
     f = np.zeros(bw.shape, np.double)
